@@ -27,6 +27,7 @@ sed -i "s#=> /repo#=> $D/repo#" "$D/harness/go.mod"
 mkdir -p "$D/out"
 for P in ${PROPS//,/ }; do
   (cd "$D/harness" && go build -tags verif -o "$D/vcheck" ./cmd/vcheck) || { echo "MUTANT-HARNESS-BUILD-FAILED"; continue; }
+  case $P in C07) (cd "$D/harness" && GOARCH=386 go build -tags verif -o "$D/vcheck-386" ./cmd/vcheck) && export VCHECK_386_BIN=$D/vcheck-386;; esac
   case $P in C09|C10|C11|C12) (cd "$D/harness" && go build -race -tags verif -o "$D/vcheck-race" ./cmd/vcheck); export VCHECK_RACE_BIN=$D/vcheck-race;; esac
   VERIF_OUT=$D/out "$D/vcheck" $P --tier $TIER > "$D/out/$P.log" 2>&1
   rc=$?
